@@ -17,6 +17,7 @@
    SPECIFICATION  [cw_lresume skip o ...] : a coalgebra on [phase] that spells out what
    try / except Exception / else / finally does around a delegated plan:
        PhBody    the wrapped plan runs; inputs are forwarded (a GeneratorExit-kind throw closes it first)
+       PhPause   pause_for_debug: the handler has yielded Msg('pause') and waits to be resumed
        PhExcept  except_plan(e) runs       PhElse  else_plan() runs
        PhFinal   final_plan() runs with a pending completion (return v | raise e)
    [skip = false] is Python's own statement.  [skip = true] differs in exactly one place
@@ -97,7 +98,10 @@ Section Spec.
   Context {P : Type}.
   Variable hres : P -> input -> outcome P.
   Variable skip : bool.                (* true: GeneratorExit-kind out of the wrapped plan skips everything *)
-  Variable o : cw_opts.                (* o_pfd is ignored: the spec has no debugging pause *)
+  Variable o : cw_opts.
+  Variable base_handler : bool.        (* true: the debugging pause is taken for every exception that is not a
+                                          GeneratorExit kind (finalize_wrapper's `except BaseException:`);
+                                          false: for Exception kinds only (contingency_wrapper) *)
   Variable exc_id else_id fin_id : nat.   (* hole numbers used in the call log (plan = 0) *)
   Variable exc_plan : exn -> P.
   Variable else_plan : P.
@@ -106,6 +110,7 @@ Section Spec.
   Inductive phase :=
     | PhStart (p : P)
     | PhBody (p : P)
+    | PhPause (e : exn)                 (* pause_for_debug: Msg('pause') is out, e is being handled *)
     | PhExcept (q : P) (e : exn)
     | PhElse (q : P) (v : val)
     | PhFinal (q : P) (c : completion).
@@ -150,14 +155,20 @@ Section Spec.
     | OutOfFuel => (OutOfFuel, log)
     end.
 
-  (* the wrapped plan raised e *)
-  Definition after_raise (e : exn) (log : list call) : lres :=
-    if skip && is_GeneratorExit e then (Raised e, log)
-    else if is_Exception e then
+  (* the except clause proper (after the optional debugging pause) *)
+  Definition handle (e : exn) (log : list call) : lres :=
+    if is_Exception e then
       if o_exc o then
         except_result e (hres (exc_plan e) (Send VNone)) (log ++ [Enter exc_id; Call exc_id (Send VNone)])
       else enter_final (CExc e) log
     else enter_final (CExc e) log.
+
+  (* the wrapped plan raised e *)
+  Definition after_raise (e : exn) (log : list call) : lres :=
+    if skip && is_GeneratorExit e then (Raised e, log)
+    else if (is_Exception e || (base_handler && negb (is_GeneratorExit e))) && o_pfd o then
+      (Yielded PAUSE_MSG (PhPause e), log)
+    else handle e log.
 
   (* the wrapped plan returned v *)
   Definition after_return (v : val) (log : list call) : lres :=
@@ -199,6 +210,14 @@ Section Spec.
             else body_result (hres p (Throw e)) [Call 0 (Throw e)]
         | Close => close_delegate 0 p EGeneratorExit after_raise
         end
+    | PhPause e0 =>
+        (* the pause generators hold no plan: a response resumes the handler, anything thrown (or close)
+           becomes the exception raised inside the handler, so only the final plan is left to run *)
+        match i with
+        | Send _ => handle e0 []
+        | Throw e => enter_final (CExc e) []
+        | Close => enter_final (CExc EGeneratorExit) []
+        end
     | PhExcept q e0 =>
         match i with
         | Send v => except_result e0 (hres q (Send v)) [Call exc_id (Send v)]
@@ -230,12 +249,13 @@ End Spec.
 
 Arguments PhStart {P} p.
 Arguments PhBody {P} p.
+Arguments PhPause {P} e.
 Arguments PhExcept {P} q e.
 Arguments PhElse {P} q v.
 Arguments PhFinal {P} q c.
 
 (* options under which the three wrappers are instances of the spec *)
-Definition finalize_opts : cw_opts := mkOpts false false true true false.
+Definition finalize_opts (pause_for_debug : bool) : cw_opts := mkOpts false false true true pause_for_debug.
 
 (* number of `Enter id` events in a logged trace *)
 Definition is_enter (id : nat) (c : call) : bool :=
